@@ -20,7 +20,11 @@ Embedded == {<< Field(1, t1, "full", "number"), [Field(4, t4, v4, "string") EXCE
 Deep == {<< Field(1, t1, "full", "number"), [Field(3, "none", "full", "number") EXCEPT !.emb = TRUE], [Field(4, "none", "full", "string") EXCEPT !.emb = TRUE],
             [Field(5, "none", "full", "number") EXCEPT !.emb = TRUE], Field(2, t2, "full", "string") >> : t1 \in {"none", "o1"}, t2 \in {"none", "first"}}
 
-Cases == {[fields |-> fs, cfg |-> c] : fs \in Two \cup Three \cup Embedded \cup Deep, c \in Cfgs}
+(* fourteen fields, two of them moved by order tags: declaration order among equal orders *)
+Wide == {[i \in 1..14 |-> Field(5 + i, IF i = a THEN "o1" ELSE IF i = b THEN "first" ELSE "none", "full", "number")] :
+           a \in {3, 9, 14}, b \in {1, 7, 12}}
+
+Cases == {[fields |-> fs, cfg |-> c] : fs \in Two \cup Three \cup Embedded \cup Deep \cup Wide, c \in Cfgs}
 
 Init == cs = [fields |-> <<>>, cfg |-> [style |-> "", omit |-> ""]]
 Next == cs.fields = <<>> /\ cs' \in Cases
